@@ -84,4 +84,16 @@ theorem translated_source_refines {key : α → κ} {P : Nat} {s : ASet α} (h :
     GenA.get key P s x = some (findK key (key x) s.view) :=
   ⟨GenA.insert_refines h x, GenA.take_refines h x, (GenA.get_refines h x).1⟩
 
+/-- Whole histories through the translator: from a zero-filled buffer of `n` slots, any history of element-indexed
+    operations (`insert x`, `take x`, `get x`, `contains x`, `len` — lookups compare through `key`) run through the
+    *translated source* answers at every step `some` of the model's answer (hence, by `refines`, the reference sorted
+    set's bounded by `min n P`) — no failed bounds check, no raw copy out of range, no loop that runs on — and ends in
+    the model's final state. -/
+theorem translated_history (key : α → κ) (P : Nat) (d : α) (n : Nat) (ops : List (GenA.EOp α)) :
+    ∃ s' outs,
+      ({ len := 0, vals := List.replicate n d } : ASet α).opRun key P (ops.map (GenA.EOp.toAS key)) = .ok (s', outs) ∧
+      GenA.runImg key P ({ len := 0, vals := List.replicate n d } : ASet α) ops = some (s', outs) := by
+  obtain ⟨s', outs, h1, _, h3⟩ := GenA.run_refines (ASet.inv_zero key P d n) ops
+  exact ⟨s', outs, h1, h3⟩
+
 end Stevia.C03
